@@ -387,6 +387,9 @@ def impl_conformance(ctx, module, cfg_text, scenarios, fields, tag):
             todo = []
             break
         m = re.search(r'"HIGHWATER",\s*(\d+)', r["out"])
+        if m and not r["error"] and not r["violated"] and int(m.group(1)) == len(tl) + 1:
+            todo = []   # a cfg without the NotDone invariant (no error trace to print): every line was consumed
+            break
         if r["error"] or not m:
             return dict(status="inconclusive", detail=(r["error"] or r["out"][-300:])[:300], scenarios=len(scenarios))
         hw = int(m.group(1))
